@@ -6,7 +6,9 @@ import (
 	"fmt"
 	"runtime/debug"
 
+	"cosmossdk.io/math"
 	sdk "github.com/cosmos/cosmos-sdk/types"
+	committypes "github.com/elys-network/elys/x/commitment/types"
 	oracletypes "github.com/elys-network/elys/x/oracle/types"
 )
 
@@ -17,9 +19,9 @@ func sceneFor(name string) SceneOpts {
 	o := DefaultScene()
 	switch name {
 	case "positions", "orders":
-		// the begin-block sweep pages through the leveraged positions one per block (as on a chain with more positions
-		// than NumberPerBlock): a position is NOT refreshed in every block
-		o.LevPerBlock = 1
+		// the begin-block sweep pages through the leveraged positions two per block (as on a chain with more positions
+		// than NumberPerBlock): a position is NOT refreshed in every block, and a page can hold two positions of one pool
+		o.LevPerBlock = 2
 	case "oracle":
 		o.Lifetime = 2
 		o.Expiry = 60
@@ -31,7 +33,7 @@ func sceneFor(name string) SceneOpts {
 		o.Lifetime = 3
 		o.Expiry = 3600
 		o.BurnEpoch = "five_minutes"
-		o.LevPerBlock = 1
+		o.LevPerBlock = 2
 		o.EdenPerYear = "10000000000000"
 	case "rewards":
 		o.EdenPerYear = "10000000000000"
@@ -65,6 +67,11 @@ func prepScene(d *Driver, name string) {
 	case "vesting":
 		// u1 and u2 hold claimable Eden (as masterchef / estaking rewards would credit it)
 		ctx := c.AdminCtx()
+		// a second vesting route: liquid uusdc vests into uusdc over 5 blocks (MsgVestLiquid)
+		cp := c.App.CommitmentKeeper.GetParams(ctx)
+		cp.VestingInfos = append(cp.VestingInfos, committypes.VestingInfo{BaseDenom: "uusdc", VestingDenom: "uusdc", NumBlocks: 5,
+			VestNowFactor: math.NewInt(90), NumMaxVestings: 3})
+		c.App.CommitmentKeeper.SetParams(ctx, cp)
 		for _, n := range []string{"u1", "u2"} {
 			coins := sdk.NewCoins(sdk.NewInt64Coin("ueden", 2_000_020), sdk.NewInt64Coin("uedenb", 500_000))
 			if err := c.App.CommitmentKeeper.MintCoins(ctx, "masterchef", coins); err != nil {
@@ -79,6 +86,9 @@ func prepScene(d *Driver, name string) {
 		mk(Step{"a": "createPool", "kind": "bal", "fee": "0.003", "d1": "uatom", "d2": "uusdc", "a1": "200000000000", "a2": "1000000000000"},
 			Step{"a": "block"},
 			Step{"a": "createPool", "kind": "bal", "fee": "0.01", "d1": "uelys", "d2": "uusdc", "a1": "300000000000", "a2": "900000000000", "w1": float64(1), "w2": float64(2)},
+			Step{"a": "block"},
+			// pool 3: an ORACLE pool without leverage / perpetual trading (no accounted pool: priced from its own reserves)
+			Step{"a": "createPool", "kind": "oracle", "fee": "0.001", "d1": "uusdt", "d2": "uusdc", "a1": "500000000000", "a2": "500000000000"},
 			Step{"a": "block"})
 	case "positions", "orders", "chain":
 		if name == "chain" {
@@ -95,5 +105,10 @@ func prepScene(d *Driver, name string) {
 			Step{"a": "block"})
 		mk(Step{"a": "enableLev", "p": float64(1)})
 		mk(Step{"a": "bond", "u": "u4", "sz": "2000000000000"}, Step{"a": "block"})
+		// external incentives may be paid in these denoms; in the fault-injecting scene the pools also earn Eden
+		mk(Step{"a": "govRewardDenom", "d": "uusdc", "min": "1"}, Step{"a": "govRewardDenom", "d": "uatom", "min": "1"})
+		if name == "chain" {
+			mk(Step{"a": "govToggleEden", "p": float64(1)}, Step{"a": "govToggleEden", "p": float64(2)})
+		}
 	}
 }
